@@ -586,6 +586,79 @@ def rule_language(chk, tab):
     chk.unit('equation classes', len(eqs))
 
 
+def rule_division(chk):
+    """Hooks are compiled with C division semantics: `a / b` with two integer operands truncates in the compiled code and is a true division in Python.  For every
+    equation and stepper hook, no division has two operands that are integers in both worlds (int literals, declare('int') locals, particle indices, attributes that
+    __init__ sets to an int literal or straight from an int-valued constructor parameter such as dim) - unless the quotient is exact (k*(k+1)/2)."""
+    from verif_static import eqindex as EI
+    ci = EI.index()
+
+    def int_attrs(rel, cls):
+        out = set()
+        for r, c in ci.mro(rel, cls):
+            init = M.methods(c).get('__init__')
+            if init is None:
+                continue
+            params = [a.arg for a in init.args.args][1:]
+            defaults = dict(zip(params[len(params) - len(init.args.defaults):], init.args.defaults))
+            for a in ast.walk(init):
+                if isinstance(a, ast.Assign) and isinstance(a.targets[0], ast.Attribute) and isinstance(a.targets[0].value, ast.Name) and a.targets[0].value.id == 'self':
+                    v = a.value
+                    lit = isinstance(v, ast.Constant) and isinstance(v.value, int) and not isinstance(v.value, bool)
+                    par = isinstance(v, ast.Name) and v.id in params and (v.id in ('dim', 'ndim') or (
+                        v.id in defaults and isinstance(defaults[v.id], ast.Constant) and isinstance(defaults[v.id].value, int) and not isinstance(defaults[v.id].value, bool)))
+                    if lit or par:
+                        out.add(a.targets[0].attr)
+        return out
+    n = nd = 0
+    for rel, cls in list(EI.equations()) + list(EI.steppers()):
+        ia = None
+        for h, (r2, c2, fn) in EI.resolved_hooks(ci, rel, cls, EI.HOOKS + ('stage1', 'stage2', 'stage3', 'stage4')).items():
+            if h in ('reduce', 'py_initialize') or c2 is not cls:
+                continue
+            divs = [d for d in ast.walk(fn) if isinstance(d, ast.BinOp) and isinstance(d.op, ast.Div)]
+            if not divs:
+                continue
+            if ia is None:
+                ia = int_attrs(rel, cls)
+            ints = set(['d_idx', 's_idx'])
+            for a in ast.walk(fn):
+                if isinstance(a, ast.Assign) and isinstance(a.value, ast.Call) and M.call_name(a.value) == 'declare' and a.value.args and isinstance(a.value.args[0], ast.Constant) \
+                        and str(a.value.args[0].value).startswith(('int', 'long', 'unsigned')):
+                    for t in a.targets:
+                        ints |= set(x.id for x in ast.walk(t) if isinstance(x, ast.Name))
+
+            def isint(e):
+                if isinstance(e, ast.Constant):
+                    return isinstance(e.value, int) and not isinstance(e.value, bool)
+                if isinstance(e, ast.Name):
+                    return e.id in ints
+                if isinstance(e, ast.Attribute) and isinstance(e.value, ast.Name) and e.value.id == 'self':
+                    return e.attr in ia
+                if isinstance(e, ast.BinOp) and isinstance(e.op, (ast.Add, ast.Sub, ast.Mult)):
+                    return isint(e.left) and isint(e.right)
+                if isinstance(e, ast.UnaryOp):
+                    return isint(e.operand)
+                return False
+
+            def exact(d):
+                # k*(k+1)/2: the product of consecutive integers is even
+                if isinstance(d.right, ast.Constant) and d.right.value == 2 and isinstance(d.left, ast.BinOp) and isinstance(d.left.op, ast.Mult):
+                    a_, b_ = d.left.left, d.left.right
+                    from verif_static import norm as N
+                    return N.same(b_, '%s + 1' % M.unparse(a_)) or N.same(a_, '%s + 1' % M.unparse(b_))
+                return False
+            for d in divs:
+                nd += 1
+                if isint(d.left) and isint(d.right) and not exact(d):
+                    n += 1
+                    chk.violated('python-and-c-division-agree', '%s.%s:%s' % (cls.name, h, compact(d)), node=d, file=r2, func='%s.%s' % (cls.name, h),
+                                 detail='`%s` divides two integers: the compiled hook (cdivision) truncates where the Python method divides exactly - e.g. 1/dim is 0 for dim >= 2' % M.unparse(d))
+    if not n:
+        chk.holds('python-and-c-division-agree', 'all-hooks', file=EQ, func='hooks', line=0, detail='%d divisions in equation / stepper hooks: none has two integer operands (or the quotient is exact)' % nd)
+    chk.floor('divisions in hooks', nd, 300)
+
+
 def main(chk):
     chk.explanation = ('PySPH\'s part of the Python-to-Cython path (compyle itself is outside the repository): precomputed table compared with '
                        'the formulas of the design docs (AST/polynomial normal form), table well-formedness (own key, context shape, known '
@@ -598,6 +671,7 @@ def main(chk):
     rule_scratch(chk)
     rule_init(chk)
     rule_language(chk, tab)
+    rule_division(chk)
     chk.assume('compyle transpiles method bodies faithfully (outside this repository); no numerical statement is made')
 
 
